@@ -27,7 +27,8 @@ def sim_plan_st(draw, tier, ctx=None, want_absent_arms=False, max_bandits=3):
             nps = [same_np]
         for _ in range(10):
             cfg = draw(gen.config_st(lps=lps, nps=nps, arm_kinds=(kind,), with_binarizer=False, scale_ok=True,
-                                     prob_ok=True, defaults_ok=False, min_arms=1, max_arms=1))
+                                     prob_ok=True, defaults_ok=False, min_arms=1, max_arms=1,
+                                     metrics=gen.MANY_METRICS))
             if ctx is not None and D8 in ctx.active and cfg["lp"][0] == "LinTS" and cfg["np"] and \
                     cfg["np"][0] in ("Radius", "KNearest", "LSHNearest"):
                 ctx.exclude(D8)
